@@ -493,8 +493,17 @@ Proof.
       destruct (copy_unknown (sat_succ m) m (c_in c1)) as [rr i']. intros _. cbn. now right.
 Qed.
 
+(* the body kind of the request returned by a successful read_request: what the reader said *)
+Definition kind_of_step (c : conn) (o : cop resp) : option body_kind :=
+  match o with
+  | OReadRequest => if is_ready c then
+                      match fst (read_req (c_in c)) with inr (_, m) => Some (rm_body m) | inl _ => None end
+                    else None
+  | _ => None
+  end.
+
 Lemma oracle_c05_sound c o :
-  oracle_c05_step resp resp_code (c_rs c) (c_ws c) o (err_of (fst (step c o)))
+  oracle_c05_step resp resp_code (c_rs c) (c_ws c) o (err_of (fst (step c o))) (kind_of_step c o)
                   (c_rs (snd (step c o))) (c_ws (snd (step c o))) (wdelta c o) = true.
 Proof.
   unfold oracle_c05_step. rewrite guard_error_ext.
@@ -509,8 +518,9 @@ Proof.
       now rewrite (ws_shutdown_sticky c o Hw).
     + destruct o as [| |d m| |r|].
       * assert (is_ready c = true) as Hr by (now apply read_request_iff_ready).
-        rewrite (read_request_ready c Hr).
-        destruct (read_req (c_in c)) as [[e|[p m]] i']; reflexivity.
+        rewrite (read_request_ready c Hr). unfold kind_of_step. rewrite Hr.
+        destruct (read_req (c_in c)) as [[e|[p m]] i']; cbn [fst snd err_of c_ws c_rs ws_beq andb]; [reflexivity|].
+        destruct (rm_body m); cbn [rs_matches_kind]; try reflexivity. apply N.eqb_refl.
       * destruct (err_of (fst (step c OReadBodyVec))) as [e|] eqn:Ee.
         -- cbn [guard_error] in G. unfold rside_of in G. destruct (c_rs c) as [|l ex ch gz|] eqn:Hrs; try discriminate.
            destruct (fst (step c OReadBodyVec)) as [| |[e'|b|b]|] eqn:Ef; cbn [err_of] in Ee; try discriminate;
